@@ -9,6 +9,15 @@ pub fn plan(prop: &str, tier: Tier) -> Option<(&'static str, Vec<Job>)> {
         "C01" => vec![Job::new("partlog", if q { 1600 } else { 60_000 }).caches(all3)],
         "C02" => vec![Job::new("partlog", if q { 1600 } else { 60_000 }).caches(all3)],
         "C03" => vec![Job::new("partlog", if q { 1200 } else { 40_000 }).caches(all3)],
+        "C05" => vec![Job::new("catalogue", if q { 1200 } else { 40_000 }).caches(&["off", "big"])],
+        "C06" => vec![
+            Job::new("catalogue", if q { 1200 } else { 40_000 }).caches(&["off", "big"]),
+            Job::new("catalogue", if q { 600 } else { 20_000 }).flavour("groups").caches(&["off"]),
+        ],
+        "C13" => vec![
+            Job::new("wire", if q { 40_000 } else { 1_500_000 }),
+            Job::new("catalogue", if q { 600 } else { 20_000 }).caches(&["off", "big"]),
+        ],
         "C14" => vec![Job::new("partlog", if q { 1400 } else { 50_000 }).caches(all3)],
         "C15" => vec![Job::new("partlog", if q { 1400 } else { 50_000 }).caches(all3)],
         "C16" => vec![Job::new("partlog", if q { 1200 } else { 40_000 }).caches(all3)],
